@@ -196,6 +196,7 @@ def isotxs_case(tier):
         "label": text(24),
         "libLabel": text(40),
         "ascii": st.booleans(),
+        "upscatter": st.sampled_from([2, 0, 1, 5, 3, 0]),
     })
 
 
@@ -234,4 +235,6 @@ def compxs_case(tier):
         "seed": st.integers(0, 2**32),
         "binary_first": st.booleans(),
         "d1d2": st.booleans(),
+        # chi flag per composition: None = as shipped (0, 1, 1); 0 not fissile, 1 vector, n > 1 matrix of n columns
+        "chi": st.lists(st.sampled_from([None, 0, 1, 2, 3, 11]), min_size=3, max_size=3),
     })
